@@ -2,7 +2,7 @@
    Only statements, each closed by [exact] of a lemma of proofs/TableCache.v,
    followed by Print Assumptions. *)
 From Coq Require Import List ZArith NArith.
-From XD Require Import lib.ListAux model.Table proofs.TableCache model.TableSel model.TableDerive proofs.TableDerive.
+From XD Require Import lib.ListAux model.Table proofs.TableCache model.TableSel model.TableDerive proofs.TableDerive model.TableMulti proofs.TableMulti.
 Import ListNotations.
 Open Scope Z_scope.
 
@@ -95,6 +95,30 @@ Example C07_derived_nonvacuous :
      RUnit; RPos 1].
 Proof. vm_compute. reflexivity. Qed.
 Print Assumptions C07_derived_nonvacuous.
+
+(* Several tables alive in one process, each with its own separators
+   (sep_count / sep_previous / sep_next; [split seps text] is the table's own
+   split of a textual selector): in any interleaving of operations on them, the
+   results of the operations addressed to table k are those of table k run
+   alone - nothing another table did with the same selector text matters. *)
+Theorem C07_tables_independent : forall (split : N -> N -> N * option Z * Z) steps tabs k s,
+  nth_error tabs k = Some s ->
+  results_of k steps (mrun_tabs split tabs steps) = srun split s (ops_of k steps).
+Proof. exact tables_independent. Qed.
+Print Assumptions C07_tables_independent.
+
+(* the same text 'x::1' (token 40) on a table with the default separators
+   (seps 0: splits into x, 1) and on a table with sep_count='#' (seps 1: a plain,
+   absent name), the latter asked first *)
+Example C07_multi_nonvacuous :
+  let split := fun seps raw : N => if (N.eqb seps 0 && N.eqb raw 40)%bool then (5%N, Some 1, 0) else (raw, None, 0) in
+  let A := mkStab 0%N (mkTable [5; 6; 5]%N [] None) in
+  let B := mkStab 1%N (mkTable [5; 40; 5]%N [] None) in
+  mrun_tabs split [A; B] [(1%nat, MGetIndex 40%N); (0%nat, MGetIndex 40%N); (1%nat, MGetIndex 5%N); (0%nat, MSetSeps 1%N true);
+                          (0%nat, MGetIndex 40%N)]
+  = [RPos 1; RPos 2; RPos 0; RUnit; RErr KeyError].
+Proof. vm_compute. reflexivity. Qed.
+Print Assumptions C07_multi_nonvacuous.
 
 (* re-pointing the index: look up, t._index = 'alt' (column 8 holds the names
    2,2,3 as integers), look up on the new index column, point back, look up *)
